@@ -301,6 +301,7 @@ func execC16(p *drv.Plan) *Out {
 	}
 	resaved := map[int64]map[string]bool{}
 	collided := false
+	limboMax := int64(0)
 	runSteps := func() *drv.Result {
 		res := &drv.Result{W: w}
 		if err := w.Open(); err != nil {
@@ -337,6 +338,9 @@ func execC16(p *drv.Plan) *Out {
 					}
 					if n < legacyLatest {
 						out.Probes["prune.below-boundary"]++
+						if n > limboMax {
+							limboMax = n // deferred: versions <= n may or may not be gone
+						}
 					} else if n == legacyLatest {
 						out.Probes["prune.at-boundary"]++
 					} else {
@@ -360,6 +364,14 @@ func execC16(p *drv.Plan) *Out {
 			} else {
 				if s.Op == drv.OpLVFO && s.N <= legacyLatest && w.M.Has(s.N) {
 					out.Probes["rollback.to-legacy-version"]++
+				}
+				if (s.Op == drv.OpLVFO || s.Op == drv.OpDVF || s.Op == drv.OpLoad || s.Op == drv.OpBadLoad) && !w.M.Has(s.N) && s.N <= limboMax {
+					// the target was requested for deletion below the legacy
+					// boundary, which the library defers: it may or may not be
+					// there, so a request naming it has no defined answer
+					out.Probes["step.on-deferred-deletion-skipped"]++
+					res.Steps++
+					continue
 				}
 				v = w.Apply(s)
 			}
